@@ -357,10 +357,15 @@ func ticket(v safroleView, attempt byte, tag byte, good bool) types.TicketEnvelo
 // STF fails where the name says:
 //   stage 1 (header, nothing written yet): badroot badxthash badtmark badoffmark
 //   (valid: ok, okticket = two tickets, okpreimage = solicited preimages, which moves lookup entries
-//    out of the raw storage key-values and adds preimage entries)
+//    out of the raw storage key-values and adds preimage entries, okreport = a guarantee with real
+//    Ed25519 credentials, okassur = assurances by all validators: a pending report becomes available
+//    and is accumulated by a real PVM program that writes the service's storage, okverdict = a wonky
+//    verdict, on the pending report if there is one)
 //   disputes: baddispute      safrole: badslot badslot0 badticket badtproof badtorder
 //   header VRF: badseal badentropy badauthor badepoch      extrinsic: badxtorder badpreimage
-//   assurances: badassur badassuridx       reports: badreport badreportord
+//   assurances: badassur badassuridx badassursig      reports: badreport badreportord badreportsig
+//   composite: badsealverdict (a valid verdict that clears a pending report, then a bad seal),
+//              badreportassur (valid assurances that make a report available, then a bad guarantee)
 func mkBlock(kind string, parent types.HeaderHash, pkv types.StateKeyVals, slot types.TimeSlot) (types.Block, error) {
 	ps, _, err := m.StateKeyValsToState(pkv.DeepCopy())
 	if err != nil {
@@ -398,7 +403,7 @@ func mkBlock(kind string, parent types.HeaderHash, pkv types.StateKeyVals, slot 
 		if g, ok := guarantee(&ps, v, parent, pkv, slot); ok {
 			ext.Guarantees = types.GuaranteesExtrinsic{g}
 		}
-	case "okassur":
+	case "okassur", "badreportassur":
 		// every validator assures every core that holds a pending report (which makes it available)
 		bits := make(types.Bitfield, types.CoresCount)
 		for c := range ps.Rho {
@@ -409,11 +414,21 @@ func mkBlock(kind string, parent types.HeaderHash, pkv types.StateKeyVals, slot 
 		for i := range ps.Kappa {
 			ext.Assurances = append(ext.Assurances, assurance(ps.Kappa, i, parent, bits))
 		}
-	case "okverdict":
+		if kind == "badreportassur" {
+			// valid assurances (a pending report becomes available), then a guarantee for a core that does not exist
+			ext.Guarantees = types.GuaranteesExtrinsic{{Report: types.WorkReport{CoreIndex: types.CoreIndex(types.CoresCount)}, Slot: slot}}
+		}
+	case "okverdict", "badsealverdict":
 		// a "wonky" verdict (one third positive judgements) on some report hash: needs neither
 		// culprits nor faults, and lands in psi_w
+		// (the pending report of core 0 if there is one, which removes it from rho)
 		vd := types.Verdict{Target: types.WorkReportHash(h32([]byte("verif-target"), []byte{byte(slot), byte(slot >> 8)})),
 			Age: types.U32(ps.Tau) / types.U32(types.EpochLength)}
+		if len(ps.Rho) > 0 && ps.Rho[0] != nil {
+			if enc, err := types.NewEncoder().Encode(&ps.Rho[0].Report); err == nil {
+				vd.Target = types.WorkReportHash(h32(enc))
+			}
+		}
 		for i := 0; i < types.ValidatorsSuperMajority; i++ {
 			j := types.Judgement{Vote: i < types.ValidatorsCount/3, Index: types.ValidatorIndex(i)}
 			ctx := types.JamInvalid
@@ -531,7 +546,7 @@ func mkBlock(kind string, parent types.HeaderHash, pkv types.StateKeyVals, slot 
 		hd.EntropySource[40] ^= 1
 		keepEntropy = true
 		seal(&hd, want, v.eta3, keepEntropy)
-	case "badseal":
+	case "badseal", "badsealverdict":
 		hd.Seal[40] ^= 1
 	}
 	return types.Block{Header: hd, Extrinsic: ext}, nil
@@ -552,8 +567,8 @@ func assurance(kappa types.ValidatorsData, i int, parent types.HeaderHash, bits 
 // block, with credentials of the validators that the rotation assigns to core 0 in this slot.
 func guarantee(ps *types.State, v safroleView, parent types.HeaderHash, pkv types.StateKeyVals, slot types.TimeSlot) (types.ReportGuarantee, bool) {
 	var g types.ReportGuarantee
-	if len(ps.Rho) == 0 || ps.Rho[0] != nil || len(ps.Beta.History) == 0 {
-		return g, false
+	if len(ps.Rho) == 0 || ps.Rho[0] != nil || len(ps.Beta.History) == 0 || int(slot)-int(ps.Tau) > types.MaxLookupAge {
+		return g, false // core engaged, or the lookup anchor (the parent) would be too old
 	}
 	last := ps.Beta.History[len(ps.Beta.History)-1]
 	if last.HeaderHash != parent {
@@ -854,39 +869,5 @@ func TestRun(t *testing.T) {
 			rej = runOnce(w, out, tab, fmt.Sprintf("B%d", k), curSeq, curIdx)
 		}
 		runOnce(w, out, tab, "C", seq, all)
-	}
-}
-
-// development aid
-func TestDebugChain(t *testing.T) {
-	os.Setenv("JAM_FUZZ", "1")
-	types.SetTinyMode()
-	logger.ConfigureLogger("main", logger.LoggerConfig{Enabled: os.Getenv("VF_LOG") != "", Level: "DEBUG"})
-	c := map[string]any{"n": float64(4), "parent": []any{0.0, 1.0, 2.0, 3.0}, "ckind": []any{"okreport", "okassur", "okverdict", "okpreimage"}, "tau0": 0.0, "anc": 0.0, "gap": 0.0, "gapat": 0.0}
-	w, err := build(c)
-	if err != nil {
-		t.Fatal(err)
-	}
-	svc := &FuzzServiceStub{}
-	for x := 0; x <= w.n; x++ {
-		kv, err := svc.GetState(w.hashes[x])
-		if err != nil {
-			t.Fatal(err)
-		}
-		st, un, _ := m.StateKeyValsToState(kv.DeepCopy())
-		nrho := 0
-		for _, r := range st.Rho {
-			if r != nil {
-				nrho++
-			}
-		}
-		nxi := 0
-		for _, q := range st.Xi {
-			nxi += len(q)
-		}
-		if x > 0 {
-			t.Logf("block %d ext: %d guarantees %d assurances", x, len(w.blocks[x].Extrinsic.Guarantees), len(w.blocks[x].Extrinsic.Assurances))
-		}
-		t.Logf("state %d: psi_g=%d nkv=%d rho=%d xi=%d unmatched=%d svcstats=%v theta=%v lastacc=%d bal=%d", x, len(st.Psi.Wonky), len(kv), nrho, nxi, len(un), st.Pi.Services, st.Theta, st.Delta[7].ServiceInfo.LastAccumulationSlot, st.Delta[7].ServiceInfo.Balance)
 	}
 }
